@@ -1,6 +1,8 @@
 package scen
 
 import (
+	"time"
+
 	"opsim/core"
 )
 
@@ -24,13 +26,13 @@ func init() {
 
 	c08 := &tcProfile{Prop: "C08", Reimport: 1, Others: 6, Steps: [2]int{60, 220}, Faults: true, Challenge: 2, Hooks: 20, BadRcpt: 12}
 	core.Register(&core.Scenario{ID: "C08", Level: "exploration", Run: runTwoChain(c08), Components: comp, Assumptions: assume,
-		Rule: "the full bridge: real L1 and L2 nodes, users on both sides, 1-3 racing executors, proposer, challenger forcing re-proposal, claimers, third-party sends, other rollups' bridges on the same L1 (created before and after this one, with their own deposits, proposals, deletions, claims and role changes), over a simulated network with loss / duplication / delay / reordering / partitions and crash-restart of either node, client traffic on discarded branches, aborted optimistic executions, restarts of either chain from its exported genesis, then a fault-free drain; oracle: both lock-step models plus the peg equation escrow = L2 supply + deposits in flight + unpaid withdrawals (from parsed events and public queries) after every block of either chain, and after the drain every claim paid exactly once, escrow = supply, combined holdings unchanged; non-trivial = >=2 deposits, >=1 withdrawal and >=1 successful claim",
+		Rule:      "the full bridge: real L1 and L2 nodes, users on both sides, 1-3 racing executors, proposer, challenger forcing re-proposal, claimers, third-party sends, other rollups' bridges on the same L1 (created before and after this one, with their own deposits, proposals, deletions, claims and role changes), over a simulated network with loss / duplication / delay / reordering / partitions and crash-restart of either node, client traffic on discarded branches, aborted optimistic executions, restarts of either chain from its exported genesis, then a fault-free drain; oracle: both lock-step models plus the peg equation escrow = L2 supply + deposits in flight + unpaid withdrawals (from parsed events and public queries) after every block of either chain, and after the drain every claim paid exactly once, escrow = supply, combined holdings unchanged; non-trivial = >=2 deposits, >=1 withdrawal and >=1 successful claim",
 		QuickRuns: 1500, QuickSecs: 75, ThoroughRuns: 20000, ThoroughSecs: 800,
 		RequiredProbes: []string{"drain.completed", "e2e.claim-succeeded", "deposit.refunded", "challenge.deleted", "mempool.redundant-relay-filtered"}})
 
 	c04 := &tcProfile{Prop: "C04", Reimport: 1, Others: 5, Steps: [2]int{80, 300}, Faults: false, Challenge: 1, BigTrees: true, BigAmts: true, Hooks: 15, BadRcpt: 25, WWithdraw: 16, WPropose: 1}
 	core.Register(&core.Scenario{ID: "C04", Level: "exploration", Run: runTwoChain(c04), Components: comp, Assumptions: assume,
-		Rule: "the full bridge with a faithful executor whose trees are built from the L2 initiate_token_withdrawal events only (independent prover, both odd-node rules): user withdrawals and refund withdrawals (malformed / blocked recipients, failing hooks) with amounts from {1, typical, 2^62, 2^63-1, 2^63, 2^64-1, 2^64+}, several denoms, upper-case bech32 and L1 module-account recipients, arbitrary output version bytes, other rollups' bridges on the same L1, restarts from exported genesis, trees of 1-33 leaves with every leaf claimed, challenger deletion with re-proposal; oracle: every recorded withdrawal with positive amount and valid L1 recipient is finalised exactly once within the drain budget; non-trivial = >=2 deposits, >=1 withdrawal and >=1 successful claim",
+		Rule:      "the full bridge with a faithful executor whose trees are built from the L2 initiate_token_withdrawal events only (independent prover, both odd-node rules): user withdrawals and refund withdrawals (malformed / blocked recipients, failing hooks) with amounts from {1, typical, 2^62, 2^63-1, 2^63, 2^64-1, 2^64+}, several denoms, upper-case bech32 and L1 module-account recipients, arbitrary output version bytes, other rollups' bridges on the same L1, restarts from exported genesis, trees of 1-33 leaves with every leaf claimed, challenger deletion with re-proposal; oracle: every recorded withdrawal with positive amount and valid L1 recipient is finalised exactly once within the drain budget; non-trivial = >=2 deposits, >=1 withdrawal and >=1 successful claim",
 		QuickRuns: 1500, QuickSecs: 75, ThoroughRuns: 15000, ThoroughSecs: 800,
 		RequiredProbes: []string{"drain.completed", "e2e.claim-succeeded", "deposit.refunded", "claim.tree-size>=9", "claim.last-leaf-of-odd-tree"}})
 
@@ -56,7 +58,9 @@ func init() {
 	c16l1 := &l1Profile{Prop: "C16", Reimport: 10, Blocks: [2]int{12, 50}, MaxTx: 5, Crash: 3, Periods: stdPeriods, RegFee: true,
 		W: map[string]int{"burst": 6, "create": 8, "deposit": 20, "propose": 25, "delete": 8, "claim": 25, "updProposer": 3, "updChallenger": 3, "batchInfo": 4, "metadata": 2,
 			"oracleCfg": 1, "params": 1, "recordBatch": 2, "send": 3, "multi": 5},
-		NonTriv: func(w *l1World) bool { return w.r.Faults["restart-from-exported-genesis.L1"] >= 1 && len(w.m.Bridges) >= 1 }}
+		NonTriv: func(w *l1World) bool {
+			return w.r.Faults["restart-from-exported-genesis.L1"] >= 1 && len(w.m.Bridges) >= 1
+		}}
 	c16l2 := &l2Profile{Prop: "C16", Reimport: 10, Blocks: [2]int{12, 50}, MaxTx: 5, Crash: 3, Hooks: 15, BadRcpt: 15,
 		W:       map[string]int{"relay": 30, "relaybatch": 4, "withdraw": 15, "send": 6, "addval": 12, "rmval": 8, "params": 10, "spend": 3, "bridgeinfo": 6, "exec": 8},
 		NonTriv: func(w *l2World) bool { return w.r.Faults["restart-from-exported-genesis.L2"] >= 1 }}
@@ -77,12 +81,28 @@ func init() {
 		return v
 	}
 	core.Register(&core.Scenario{ID: "C16", Level: "exploration", Run: runC16, Components: comp, Assumptions: append(append([]string{}, assume...), "the re-imported chain starts at the next height; the L2's cached L1 validator set and per-height history are not part of genesis (documented exclusions)"),
-		Rule: "two runs in three: random two-chain histories with all message types (several bridges, deleted and re-proposed outputs, refunded deposits, removed validators, several batch-info generations, parameter changes) in which either chain is, at scheduler-chosen points and repeatedly, exported, validated and re-initialised on a fresh node at the next height; oracle: the second export is byte-identical per module, the L2's InitChain validator updates equal the bonded set, and the run continues on the re-imported node with the lock-step model still attached, so every later response, event and query must equal what the original chain would have produced (after a re-import every model deviation counts); one run in three is a single-chain L1 or L2 history with the broader message mix of those worlds (several bridges, bursts of >100 outputs, maximum-length denoms, validator / parameter / executor traffic) restarted from exported genesis before about 10% of the blocks; an exported genesis edited to carry a non-positive finalization period must be refused; non-trivial = at least one restart from exported genesis happened",
+		Rule:      "two runs in three: random two-chain histories with all message types (several bridges, deleted and re-proposed outputs, refunded deposits, removed validators, several batch-info generations, parameter changes) in which either chain is, at scheduler-chosen points and repeatedly, exported, validated and re-initialised on a fresh node at the next height; oracle: the second export is byte-identical per module, the L2's InitChain validator updates equal the bonded set, and the run continues on the re-imported node with the lock-step model still attached, so every later response, event and query must equal what the original chain would have produced (after a re-import every model deviation counts); one run in three is a single-chain L1 or L2 history with the broader message mix of those worlds (several bridges, bursts of >100 outputs, maximum-length denoms, validator / parameter / executor traffic) restarted from exported genesis before about 10% of the blocks; an exported genesis edited to carry a non-positive finalization period must be refused; non-trivial = at least one restart from exported genesis happened",
 		QuickRuns: 1500, QuickSecs: 75, ThoroughRuns: 20000, ThoroughSecs: 800,
 		RequiredProbes: []string{"drain.completed", "e2e.claim-succeeded"}})
 
 	c18 := &tcProfile{Prop: "C18", Steps: [2]int{50, 160}, Faults: false, Challenge: 2, Hooks: 15, BadRcpt: 15, Admin: true, Replicas: true, Plans: true}
+	// one run in six: the permissioned-channel hook world (metadata grammar, IBC stub traffic) under replicas
+	c18hook := &l1Profile{Prop: "C18", Blocks: [2]int{10, 45}, MaxTx: 4, Crash: 5, Hook: true, Periods: []time.Duration{time.Second, time.Hour},
+		W:       map[string]int{"create": 30, "metadata": 30, "updChallenger": 25, "updProposer": 5, "deposit": 3, "propose": 3},
+		NonTriv: func(w *l1World) bool { return len(w.m.Bridges) >= 1 }}
 	runC18 := func(r *core.Run) *core.Violation {
+		if r.Chance(1, 6) {
+			r.Probe("replica.hook-scenario")
+			w := newL1World(r, c18hook)
+			w.addReplicas(w.genesis)
+			for i, nb := 0, 10+r.Intn(36); i < nb; i++ {
+				if v := w.runBlock(); v != nil {
+					return v
+				}
+			}
+			r.NonTriv = c18hook.NonTriv(w)
+			return nil
+		}
 		if r.Chance(1, 4) {
 			// the oracle relay path (stale, replayed and Byzantine price updates) under replicas
 			r.Probe("replica.oracle-scenario")
@@ -91,7 +111,7 @@ func init() {
 		return runTwoChain(c18)(r)
 	}
 	core.Register(&core.Scenario{ID: "C18", Level: "exploration", Run: runC18, Components: comp, Assumptions: append(append([]string{}, assume...), "Go map iteration order cannot be seeded: independent replicas in one process get independent orders, so an order dependence over n entries escapes one comparison with probability about 1/n! and a replay reports the divergence rate over repeated executions rather than bit-exact reproduction"),
-		Rule: "every block of a two-chain history (with admin traffic and executor-change plans so that several validators leave in one block) is also executed on two independent replicas per chain: one crashed and restarted before blocks and between FinalizeBlock and Commit, one receiving CheckTx / simulate / query traffic between blocks, both under another local time zone than the main node and in half of the blocks executing at the same time on separate threads; the main node itself serves client traffic on discarded branches and meets aborted optimistic executions; one run in four is the oracle-relay scenario (honest, stale, replayed and Byzantine price updates, light-client refreshes) under the same replicas; oracle: identical tx results (code, data, gas, events in order, error text), validator updates in order, block events, app hash and raw store contents after every block; non-trivial = >=2 deposits, >=1 withdrawal, >=1 successful claim",
+		Rule:      "every block of a two-chain history (with admin traffic and executor-change plans so that several validators leave in one block) is also executed on two independent replicas per chain: one crashed and restarted before blocks and between FinalizeBlock and Commit, one receiving CheckTx / simulate / query traffic between blocks, both under another local time zone than the main node and in half of the blocks executing at the same time on separate threads; the main node itself serves client traffic on discarded branches and meets aborted optimistic executions; one run in four is the oracle-relay scenario (honest, stale, replayed and Byzantine price updates, light-client refreshes) under the same replicas; oracle: identical tx results (code, data, gas, events in order, error text), validator updates in order, block events, app hash and raw store contents after every block; non-trivial = >=2 deposits, >=1 withdrawal, >=1 successful claim",
 		QuickRuns: 800, QuickSecs: 75, ThoroughRuns: 12000, ThoroughSecs: 800,
 		RequiredProbes: []string{"replica.compared", "replica.compared-multi-validator-update", "replica.oracle-scenario"}})
 }
